@@ -19,12 +19,17 @@
                may give for THAT extraction (SpikeSelector, n_chunks_kept = 20, subset_chunks=True):
                per template, min(max_n_spikes_per_template, #spikes of the template inside the kept
                chunks) ids, all of them spikes of the template inside the kept chunks -- relational,
-               the random choice itself is not predicted
+               the random choice itself is not predicted.  Stage 4: judged twice, by [select_ok] (C10's
+               own reading) AND by [LinkSpec.select_c17_b] = C17's checker select_spec_b on C17's model of
+               the kept chunks, which also demands strictly increasing ids that are spikes; by
+               C10_link_clause30 the latter accepts exactly the arrays some admissible np.random.choice
+               makes C17's route return
           3  = input outside the stated regime (harness bug)
    Strings are classified by the identity oracle [CText]: the harness asserts, with Python's own
    int()/float(), that no saved string is numeric. *)
 From Coq Require Import ZArith List Bool String Ascii.
 From PV Require Export Base.Tok Base.NpSearch Base.NpList C16.Model C16.Spec C03.Model C03.Spec C10.Model C10.Spec.
+From PV Require Import C10.LinkSpec.
 Import ListNotations.
 Local Open Scope string_scope.
 Local Open Scope Z_scope.
@@ -100,9 +105,10 @@ Definition op_ok (r : rest) (o : op) : bool :=
       match r_raw r with
       | None => match ids with [] => true | _ => false end
       (* any number of selected spikes, one and none included: the loader no longer squeezes the
-         three store files (repair on branch fix-c10b) *)
-      | Some _ => incr_b ids && forallb (fun i => (0 <=? i) && (i <? zlen (r_samples r))) ids &&
-                  (12 <=? w)
+         three store files (repair on branch fix-c10b).  Stage 4: "strictly increasing ids that are
+         spikes" is no longer a regime guard here (code 3) but part of clause 30 (select_c17_b): ids
+         read back from the store file that violate it are a verdict about phylib, not about the harness *)
+      | Some _ => 12 <=? w
       end
   | _ => true
   end.
@@ -248,7 +254,7 @@ Fixpoint sel_codes (r : rest) (ops : list op) (nsts : list Z) (crash : option Z)
           match nsts with
           | n :: ns => (match r_raw r with
                         | None => []
-                        | Some _ => flag 30 (select_ok r n ids)
+                        | Some _ => flag 30 (select_ok r n ids && select_c17_b r n ids)
                         end) ++ sel_codes r rest' ns crash (k + 1)
           | [] => [3]
           end
